@@ -3,8 +3,8 @@
    get(k) finds exactly the members, the in-order traversal is the strictly sorted list of keys, the root is black, no red
    node has a red child, all paths have the same black height and the height is at most twice the black height.
    The correspondence run evaluates this checker on the model state after EVERY operation (ml/c18_driver.ml), so the
-   semantics is established for every explored state of any size; that insert/remove always lead to such a state is proved
-   only in small scope (TreeProofs.v) — named C18_tree_ops_preserve_ok_partial in design/C18.md. *)
+   semantics is established for every explored state of any size; that INSERT always leads to such a state is proved for
+   trees of any size in TreeInsertAbs.v / TreeInsertRefine.v; for remove see design/C18.md. *)
 From Coq Require Import ZArith List Bool Lia.
 From Verif Require Import Containers.TreeModel.
 Import ListNotations.
